@@ -369,10 +369,11 @@ ParseOfEncodeIsForm ==
         /\ last.out = "end" => (yielded = Len(form) /\ FirstStop = 0)
 
 (* limits are exact: the iteration fails at part i iff i is the first part whose header block is
-   longer than the limit or whose index exceeds the part count (0 = no limit) ... *)
+   longer than the limit or whose index exceeds the part count (0 = no limit).  "If": a step
+   that reaches part FirstStop can neither yield it nor report the end (ParseOfEncodeIsForm), so
+   it fails; "only if" and the reason are stated here ... *)
 LimitsExactAtThreshold ==
-    /\ (Sent /\ last.op = "next") =>
-         (last.out = "error" <=> (FirstStop > 0 /\ yielded = FirstStop - 1))
+    /\ (Sent /\ last.op = "next" /\ last.out = "error") => (FirstStop > 0 /\ yielded = FirstStop - 1)
     /\ (Sent /\ last.op = "next" /\ last.out = "error") =>
          last.why = (IF HdrTooBig(FirstStop) THEN "headers" ELSE "count")
 (* ... and a buffered accessor fails iff more than lim.buf bytes were left in the part *)
